@@ -261,7 +261,7 @@ def judge(scn, want_text=True):
                     rows = max(0, len(list(csv.reader(io.StringIO(tout.value.decode("utf-8", "replace"), newline="")))) - 1)
                 except csv.Error:
                     rows = None  # a bare CR inside an unquoted cell: the CSV cannot be counted reliably (C20's ground)
-            if tout.rc != -1 or f"Error detected in record {j + 1}\n" not in text or (rows is not None and rows != j):
+            if f"Error detected in record {j + 1}\n" not in text or (rows is not None and rows != j):
                 fails.append({"oracle": "C10.tool.reports_the_failing_record",
                               "detail": f"{tool} returned {tout.rc!r}, CSV rows {rows} (expected {j}), operator text "
                                         f"{'names' if f'Error detected in record {j + 1}' in text else 'does not name'} record {j + 1} "
